@@ -432,26 +432,64 @@ theorem spec_value (a b : Location) (fs : Bool) (hc : ∃ p, covX fs a p = true 
     simpa [hq] using this
 
 /-- what `contains` does once `has_overlap` has answered `True` -/
-def tail (a b : PLoc) (ms fs : Bool) : R Bool :=
-  match b.1 with
+def tail (x y : Location) (ms fs : Bool) : R Bool :=
+  match y with
   | .empty => throw .EmptyLocation
   | _ =>
     if !fs then do
-      let i ← intersection a.1 b.1 ms false
-      pure (locLen i == locLen b.1)
+      let i ← intersection x y ms false
+      pure (locLen i == locLen y)
     else do
-      let sa ← spanLoc a.1
-      let sb ← spanLoc b.1
+      let sa ← spanLoc x
+      let sb ← spanLoc y
       if !(← hasOverlap sa sb false false) then pure false
       else do
         let i ← intersection sa sb false false
         pure (locLen i == locLen sb)
 
 theorem containsP_false (a b : PLoc) (ms fs : Bool) (o : Bool) (ho : hasOverlapP a b ms fs false = .ok o) :
-    containsP a b ms fs false = if !o then pure false else tail a b ms fs := by
+    containsP a b ms fs false = if !o then pure false else tail a.1 b.1 ms fs := by
   unfold containsP
   rw [ho]
   rfl
+
+theorem tail_false (x y : Location) (hx : WF x) (hy : WF y) (ms : Bool) (hg : strandGate x y ms = true)
+    (hc : ∃ p, covX false x p = true ∧ covX false y p = true) :
+    ∃ v, tail x y ms false = .ok v ∧
+      (nonOverlapLoc x = true → (v = true ↔ ∀ p, covX false y p = true → covX false x p = true)) := by
+  simp only [covX_false] at hc ⊢
+  obtain ⟨i, hi, hiff⟩ := contains_core x y hx hy ms hg hc
+  have hyne : y ≠ .empty := by
+    rintro rfl; obtain ⟨p, _, h⟩ := hc; simp [locationCovers] at h
+  refine ⟨locLen i == locLen y, ?_, hiff⟩
+  cases y with
+  | empty => exact absurd rfl hyne
+  | single b s => simp only [tail, Bool.not_false, if_true, hi, ok_bind]; rfl
+  | compound l => simp only [tail, Bool.not_false, if_true, hi, ok_bind]; rfl
+
+theorem tail_true (x y : Location) (hx : WF x) (hy : WF y) (ms : Bool)
+    (hc : ∃ p, covX true x p = true ∧ covX true y p = true) :
+    ∃ v, tail x y ms true = .ok v ∧ (v = true ↔ ∀ p, covX true y p = true → covX true x p = true) := by
+  obtain ⟨p, hpx, hpy⟩ := hc
+  have hxne : x ≠ .empty := by intro h; rw [h, covX_empty] at hpx; cases hpx
+  have hyne : y ≠ .empty := by intro h; rw [h, covX_empty] at hpy; cases hpy
+  obtain ⟨fa, sta, hsa, hfa, hca⟩ := spanLoc_spec x hx hxne
+  obtain ⟨fb, stb, hsb, hfb, hcb⟩ := spanLoc_spec y hy hyne
+  have hc' : ∃ p, locationCovers (.single fa sta) p = true ∧ locationCovers (.single fb stb) p = true :=
+    ⟨p, by rw [← hpx, hca]; rfl, by rw [← hpy, hcb]; rfl⟩
+  have hgate : strandGate (.single fa sta) (.single fb stb) false = true := rfl
+  have hov := hasOverlap_true (.single fa sta) (.single fb stb) hfa hfb false hgate hc'
+  obtain ⟨i, hi, hiff⟩ := contains_core (.single fa sta) (.single fb stb) hfa hfb false hgate hc'
+  refine ⟨locLen i == locLen (.single fb stb), ?_, ?_⟩
+  · cases y with
+    | empty => exact absurd rfl hyne
+    | single b s =>
+      simp only [tail, Bool.not_true, Bool.false_eq_true, if_false, hsa, hsb, ok_bind, hov, hi]; rfl
+    | compound l =>
+      simp only [tail, Bool.not_true, Bool.false_eq_true, if_false, hsa, hsb, ok_bind, hov, hi]; rfl
+  · rw [hiff rfl]
+    simp only [hca, hcb]
+    rfl
 
 theorem contains_nonstrict (a b : PLoc) (ha : WFP a) (hb : WFP b) (ms fs : Bool) (hq : ¬ EmptyArgQuirk a b ms) :
     okContains a b ms fs false (ans (containsP a b ms fs false)) = true := by
@@ -492,6 +530,60 @@ theorem contains_nonstrict (a b : PLoc) (ha : WFP a) (hb : WFP b) (ms fs : Bool)
     have hane : a.1 ≠ .empty := by intro h; rw [h, covX_empty] at hpa; cases hpa
     have hbne : b.1 ≠ .empty := by intro h; rw [h, covX_empty] at hpb; cases hpb
     simp only [Bool.not_true, Bool.false_eq_true, if_false]
-    sorry
+    cases fs with
+    | false =>
+      obtain ⟨v, hv, hiff⟩ := tail_false a.1 b.1 ha.1 hb.1 ms hg ⟨p, hpa, hpb⟩
+      rw [hv]
+      unfold okContains
+      simp only [ans_ok, Bool.false_and, Bool.false_eq_true, if_false, Bool.false_or]
+      split
+      · rfl
+      · rename_i hdom
+        have hno : nonOverlapLoc a.1 = true := by
+          simp only [Bool.not_eq_true', Bool.not_eq_false, Bool.and_eq_true] at hdom
+          exact hdom.1
+        rw [beq_iff_eq, hact, Bool.true_and]
+        congr 1
+        exact spec_value a.1 b.1 false ⟨p, hpa, hpb⟩ v (hiff hno)
+    | true =>
+      obtain ⟨v, hv, hiff⟩ := tail_true a.1 b.1 ha.1 hb.1 ms ⟨p, hpa, hpb⟩
+      rw [hv]
+      unfold okContains
+      simp only [ans_ok, Bool.false_and, Bool.false_eq_true, if_false, Bool.true_or, Bool.not_true]
+      rw [beq_iff_eq, hact, Bool.true_and]
+      congr 1
+      exact spec_value a.1 b.1 true ⟨p, hpa, hpb⟩ v hiff
 
 end BioCantor.Proofs.Contains
+
+namespace BioCantor.Proofs
+open BioCantor BioCantor.Spec BioCantor.Model
+
+/-- C02-T5: for operands that are not self-overlapping (always for the span variant) `contains` ⇔ b has a position and every position of b
+    is one of a (spans with `full_span`), gated by strand / parents -/
+theorem containsP_ok (a b : PLoc) (ha : WFP a) (hb : WFP b) (ms fs strict : Bool) (hq : ¬ EmptyArgQuirk a b ms) :
+    okContains a b ms fs strict (ans (containsP a b ms fs strict)) = true := by
+  cases strict with
+  | false => exact Contains.contains_nonstrict a b ha hb ms fs hq
+  | true =>
+    cases hsp : sameParent a.2 b.2 with
+    | false =>
+      simp [okContains, containsP, requireParentsEq_eq, hsp]
+      rfl
+    | true =>
+      have : containsP a b ms fs true = containsP a b ms fs false := by
+        simp [containsP, requireParentsEq_eq, hsp]
+        rfl
+      rw [this]
+      have := Contains.contains_nonstrict a b ha hb ms fs hq
+      simpa [okContains, hsp] using this
+
+/-- the hypotheses of `containsP_ok` hold for concrete non-trivial inputs (here: `contains` is `True`) -/
+example :
+    WFP ((.compound ⟨[(0, 3), (5, 9), (12, 14)], .plus⟩), [(some "chrA", none, some (List.replicate 20 'A'))]) ∧
+    WFP ((.compound ⟨[(1, 3), (5, 7)], .plus⟩), [(some "chrA", none, some (List.replicate 20 'A'))]) ∧
+    ¬ EmptyArgQuirk ((.compound ⟨[(0, 3), (5, 9), (12, 14)], .plus⟩), [(some "chrA", none, some (List.replicate 20 'A'))])
+        ((.compound ⟨[(1, 3), (5, 7)], .plus⟩), [(some "chrA", none, some (List.replicate 20 'A'))]) true := by
+  refine ⟨by decide, by decide, by decide⟩
+
+end BioCantor.Proofs
